@@ -49,8 +49,9 @@ MODEL_PRELUDE = """
 Open Scope Z_scope.
 Definition code_of (b : balance) : Z * Z :=
   match b with BalAwaiting a => (1, a) | BalContentious a => (2, a) | BalMaybeTimeout a => (3, a) | BalMaybePreimage a => (4, a) end.
-Definition obs_of (c : closure) (st : mstate) : Z * list (Z * Z) := (spendable_total st, map code_of (balances c st)).
-Fixpoint scan (c : closure) (st : mstate) (ops : list op) : list (Z * list (Z * Z)) :=
+Definition obs_of (c : closure) (st : mstate) : Z * list (Z * Z) * list Z :=
+  (spendable_total st, map code_of (balances c st), map Z.of_nat (claiming c st)).
+Fixpoint scan (c : closure) (st : mstate) (ops : list op) : list (Z * list (Z * Z) * list Z) :=
   match ops with [] => [] | o :: t => let st' := step c st o in obs_of c st' :: scan c st' t end.
 Definition scan_all (c : closure) (k0 : list nat) (ops : list op) := obs_of c (init c k0) :: scan c (init c k0) ops.
 """
@@ -64,8 +65,8 @@ def _parse_model_trace(m):
     side = "HolderTx" if hd[0] == "holder" else "CounterpartyTx"
     htlcs = []
     for h in [x for x in hd[4].split(",") if x]:
-        o, amt, exp, has = h.split(".")
-        htlcs.append("mkHtlc %s %s %s %s" % ("true" if o == "1" else "false", amt, exp, "true" if has == "1" else "false"))
+        o, amt, exp, has, hid = h.split(".")
+        htlcs.append("mkHtlc %s %s %s %s %s" % ("true" if o == "1" else "false", amt, exp, "true" if has == "1" else "false", hid))
     known0 = [x for x in hd[5].split(",") if x]
     ops, marks = [], []
     for t in toks[1:]:
@@ -78,9 +79,9 @@ def _parse_model_trace(m):
                 sp.append("mkSpend %s%%nat %s %s" % (i, "true" if ours == "1" else "false", "true" if pre == "1" else "false"))
             ops.append("OpBlock %s [%s]" % ("true" if t.startswith("B") else "false", "; ".join(sp)))
         elif t.startswith("O"):
-            body, handed = t[1:].split("#")
+            body, handed, cov = t[1:].split("#")
             bl = sorted((KIND[x[0]], int(x[1:])) for x in body.split(".") if x)
-            marks.append((len(ops), (int(handed), bl)))
+            marks.append((len(ops), (int(handed), bl, sorted(int(x) for x in cov.split(".") if x))))
     expr = "scan_all (mkClosure %s %s %s %s [%s]) [%s] [%s]" % (
         side, hd[1], hd[2], hd[3], "; ".join(htlcs), "; ".join(k + "%nat" for k in known0), "; ".join(ops))
     return expr, marks
@@ -113,16 +114,17 @@ def model_correspondence(ctx, recs, limit):
         except (ValueError, SyntaxError):
             dis.append({"seed": seed, "error": "unparsable model output", "value": v[:200]})
             continue
-        for pos, (handed, bl) in mk:
+        for pos, (handed, bl, cov) in mk:
             nobs += 1
             if pos >= len(res):
                 dis.append({"seed": seed, "error": "model trace shorter than the observation"})
                 break
-            msp, mbl = res[pos]
+            msp, mbl, mcl = res[pos]
             mbl = sorted((int(a), int(b)) for a, b in mbl)
-            if msp != handed or mbl != bl:
-                dis.append({"seed": seed, "op_index": pos, "model": {"spendable_total": msp, "balances": mbl},
-                            "impl": {"spendable_total": handed, "balances": bl}, "trace_head": m[:300]})
+            mcl = sorted(int(a) for a in mcl)
+            if msp != handed or mbl != bl or mcl != cov:
+                dis.append({"seed": seed, "op_index": pos, "model": {"spendable_total": msp, "balances": mbl, "claiming": mcl},
+                            "impl": {"spendable_total": handed, "balances": bl, "claiming": cov}, "trace_head": m[:300]})
                 break
     return dis, len(cases), nobs
 
